@@ -238,6 +238,20 @@ def gen_C05(seed):
     if r.random() < 0.3:
         s["dt"] = -s["dt"]
     scn["knobs"].pop("alloc_cap", None)
+    prob = scn["problem"]
+    # tolerance mixes in which rtol*|y| dominates atol, large / small state magnitudes, strongly decaying or growing linear flows
+    if s.get("rtol") is not None and r.random() < 0.5:
+        s["atol"] = float("%.2e" % (s["rtol"] * r.choice([1e-2, 1e-4, 1e-6, 1e-8])))
+    if prob["family"] in ("linear", "osc", "cosdecay") and r.random() < 0.35:
+        sc = r.choice([1e3, 1e3, 1e-3, 30.0])
+        prob["y0"] = [round(v * sc, 9) for v in prob["y0"]]
+    if prob["family"] == "linear" and r.random() < 0.5:
+        n_ = int(round(len(prob["params"]["A"]) ** 0.5))
+        shift = r.choice([-3.0, -2.0, -1.0, 1.0]) * direction
+        A = list(prob["params"]["A"])
+        for d_ in range(n_):
+            A[d_ * n_ + d_] = round(A[d_ * n_ + d_] + shift, 6)
+        prob["params"]["A"] = A
     ops = [{"op": "integrate"}]
     if r.random() < 0.25:
         mid = round(s["t0"] + direction * L * r.uniform(0.2, 0.8), 6)
@@ -326,7 +340,10 @@ def gen_C20(seed):
             ops.append({"op": "set", "attr": r.choice(["rtol", "atol"]), "value": float("%.2e" % 10 ** r.uniform(-7, -3))})
             continue
         op = {"op": "integrate"}
-        if r.random() < 0.6 and abs(tf - cur) > 0.05 * L:
+        if j > 0 and r.random() < 0.12 and abs(cur - t0) > 0.2 * L:
+            op["t"] = round(cur - (cur - t0) * r.uniform(0.2, 0.8), 6)          # against the system's span: a reversal
+            cur = op["t"]
+        elif r.random() < 0.6 and abs(tf - cur) > 0.05 * L:
             op["t"] = round(cur + (tf - cur) * r.uniform(0.2, 0.9), 6)
             cur = op["t"]
         else:
